@@ -37,6 +37,22 @@ let utf8_encode (buf : Buffer.t) (c : int) : unit =
   else if c < 0x10000 then (add (0xE0 lor (c lsr 12)); add (0x80 lor ((c lsr 6) land 0x3F)); add (0x80 lor (c land 0x3F)))
   else (add (0xF0 lor (c lsr 18)); add (0x80 lor ((c lsr 12) land 0x3F)); add (0x80 lor ((c lsr 6) land 0x3F)); add (0x80 lor (c land 0x3F)))
 
+(* strict UTF-8 validation (the harness decodes lossily; texts that are not valid UTF-8 are not fed to the PEG model) *)
+let utf8_valid (b : int list) : bool =
+  let cont c = c land 0xC0 = 0x80 in
+  let rec go = function
+    | [] -> true
+    | c :: r when c < 0x80 -> go r
+    | c :: c1 :: r when c >= 0xC2 && c <= 0xDF && cont c1 -> go r
+    | c :: c1 :: c2 :: r when c land 0xF0 = 0xE0 && cont c1 && cont c2 ->
+        let v = ((c land 0x0F) lsl 12) lor ((c1 land 0x3F) lsl 6) lor (c2 land 0x3F) in
+        v >= 0x800 && not (v >= 0xD800 && v <= 0xDFFF) && go r
+    | c :: c1 :: c2 :: c3 :: r when c land 0xF8 = 0xF0 && cont c1 && cont c2 && cont c3 ->
+        let v = ((c land 0x07) lsl 18) lor ((c1 land 0x3F) lsl 12) lor ((c2 land 0x3F) lsl 6) lor (c3 land 0x3F) in
+        v >= 0x10000 && v <= 0x10FFFF && go r
+    | _ -> false in
+  go b
+
 let str_of_hex (s : string) : z list = List.map z_of_int (utf8_decode (bytes_of_hex s))
 let hex_of_str (s : z list) : string =
   if s = [] then "-" else begin
@@ -180,6 +196,25 @@ let handle (case : string) (out : string) : unit =
    | _ -> ());
   let outcome = match split_ws impl with x :: y :: _ when x = "ERR" -> "ERR" ^ y | x :: _ -> x | [] -> "?" in
   count ("kind:" ^ kind ^ ":" ^ outcome);
+  (* ---- the PEG model of pest (validated only): same verdict and same pair tree as the real pest parser *)
+  (match toks with
+   | _ :: h :: _ when not (starts_with "TREEPANIC" tree_s) ->
+       let bytes = bytes_of_hex h in
+       if utf8_valid bytes then begin
+         let text = List.map z_of_int (utf8_decode bytes) in
+         match peg_parse text with
+         | Ok None ->
+             count "peg:reject";
+             if tree_s <> "NOTREE" then report_diverge "C19" case_s "pest accepts the text" "Peg.v rejects it"
+         | Ok (Some t) ->
+             count "peg:accept";
+             if tree_s = "NOTREE" then report_diverge "C19" case_s "pest rejects the text" "Peg.v accepts it"
+             else if not (tree_eqb t (parse_tree tree_s)) then
+               report_diverge "C19" case_s "pest's pair tree" "Peg.v builds a different pair tree"
+         | OutOfFuel -> report_diverge "C19" case_s "pest terminates" "Peg.v: OUTOFFUEL"
+         | Panic _ -> report_diverge "C19" case_s "pest terminates" "Peg.v: PANIC"
+       end else count "peg:skipped-invalid-utf8"
+   | _ -> ());
   (* ---- correspondence *)
   if tree_s = "NOTREE" then begin
     count "pest:reject";
